@@ -26,7 +26,7 @@ def laws(ctx, n):
     L, rnd = ctx.L, ctx.rnd
     sks = list(special_sks(L))
     for _ in range(n):
-        r = ctx.call("ke_random_sk", ctx.tape(200 if L.ke != "P521" else 66 * 400))
+        r = ctx.call("ke_random_sk", ctx.sk_tape())
         if ctx.expect(r.ok, "random_sk succeeds"):
             sks.append(r.b(0))
     seeds = [bytes(L.Nsk), b"\xff" * L.Nsk] + [ctx.tape(L.Nsk) for _ in range(n)]
